@@ -27,18 +27,28 @@ def main():
             if want and m["prop"] not in want and m["id"] not in args:
                 continue
             if "--list" in sys.argv:
-                print(m["id"], m["prop"], m["file"], m.get("note", ""))
+                print(m["id"], m["prop"], m.get("file") or m.get("patch"), m.get("note", ""))
                 continue
             root = os.path.join(base, m["id"])
             shutil.copytree("/repo", root, ignore=shutil.ignore_patterns(".git", "__pycache__", ".pytest_cache"))
-            path = os.path.join(root, m["file"])
-            src = open(path).read()
-            if src.count(m["old"]) < 1:
-                results.append((m["id"], m["prop"], "STALE (pattern not found)"))
-                shutil.rmtree(root)
-                continue
-            src = src.replace(m["old"], m["new"], m.get("count", 1))
-            open(path, "w").write(src)
+            if m.get("patch"):
+                pp = subprocess.run(["patch", "-p1", "-s", "-i", os.path.join(VERIF, m["patch"])], cwd=root,
+                                    capture_output=True, text=True)
+                if pp.returncode != 0:
+                    results.append((m["id"], m["prop"], "STALE (patch does not apply) " + pp.stdout[-200:]))
+                    print(*results[-1], flush=True)
+                    shutil.rmtree(root)
+                    continue
+            else:
+                path = os.path.join(root, m["file"])
+                src = open(path).read()
+                if src.count(m["old"]) < 1:
+                    results.append((m["id"], m["prop"], "STALE (pattern not found)"))
+                    print(*results[-1], flush=True)
+                    shutil.rmtree(root)
+                    continue
+                src = src.replace(m["old"], m["new"], m.get("count", 1))
+                open(path, "w").write(src)
             tests = ""
             if run_tests:
                 p = subprocess.run(["/venv/bin/python", "-m", "pytest", "-q", "-x", "-p", "no:cacheprovider", "lib"],
